@@ -19,8 +19,31 @@ from sim import gen
 from sim.common import gen_perm, install_validator_order
 from sim.world import attempt, norm
 
+def _registry_attr():
+    """Name of the attribute holding the name -> checker map (the anchored
+    `_callable_register`; located by content if it was ever renamed)."""
+    if isinstance(getattr(format_checker, "_callable_register", None), dict):
+        return "_callable_register"
+    for key, val in vars(format_checker).items():
+        if isinstance(val, dict) and "uuid" in val and callable(val["uuid"]):
+            return key
+    return None
+
+
+REGISTRY_ATTR = _registry_attr()
 # the registry exactly as the library leaves it after import
-PRISTINE_REGISTER = dict(format_checker._callable_register)  # pylint: disable=protected-access
+PRISTINE_REGISTER = (
+    dict(getattr(format_checker, REGISTRY_ATTR)) if REGISTRY_ATTR else {}
+)
+
+
+def reset_registry():
+    """Back to the import-time content (by assignment: works whether the
+    library mutates the dict in place or replaces it).  Runs execute in
+    pristine processes anyway; this only separates the recording run from the
+    replay inside one process."""
+    if REGISTRY_ATTR:
+        setattr(format_checker, REGISTRY_ATTR, dict(PRISTINE_REGISTER))
 
 PROP = "C16"
 ENGINE = "H"
@@ -333,10 +356,14 @@ class _DirectValidator:
         self.validators = validators
 
     def __call__(self, value):
-        from statham.schema.elements.base import UNBOUND_PROPERTY
+        try:
+            from statham.schema.elements.base import UNBOUND_PROPERTY as prop
+        except ImportError:
+            import types
 
+            prop = types.SimpleNamespace(name="<unbound>", parent=None, source=None)
         for validator in self.validators:
-            validator(value, UNBOUND_PROPERTY)
+            validator(value, prop)
         return value
 
 
@@ -351,15 +378,14 @@ def wrap(kind, value):
 
 def exec_case(case, log, stats):
     install_validator_order(case.get("perm"))
-    # pylint: disable=protected-access
     saved = dict(PRISTINE_REGISTER)
     # start every run from the registry as it is right after import, whatever
     # earlier runs in this process did and however the register is stored
-    format_checker._callable_register = dict(saved)
+    reset_registry()
     try:
         return _exec(case, log, stats, saved)
     finally:
-        format_checker._callable_register = dict(saved)
+        reset_registry()
 
 
 def _exec(case, log, stats, saved):
